@@ -143,10 +143,25 @@ class PollRun:
             return Sym("text")
         if name == "new" and d.startswith("alloc::vec::Vec"):
             return Sym("EMPTYVEC")
+        if name in ("deref_mut", "as_mut_slice", "as_mut") and len(args) == 1 and args[0] == Sym("BUF"):
+            return args[0]          # the buffer seen as a slice is the buffer
+        if name in _BUF_MUTATORS and args and (res or d) not in self.F.fns:
+            tgt = args[0]
+            if tgt == Sym("BUF"):
+                self.calls.append(("buf-mutated", name, "the whole buffer"))
+                return UNIT
+            if isinstance(tgt, Sym) and isinstance(tgt.tag, tuple) and len(tgt.tag) == 3 and tgt.tag[0] == "index_mut" and tgt.tag[1] == vkey(Sym("BUF")):
+                self.calls.append(("buf-mutated", name, tgt.tag[2]))
+                return UNIT
         return None
 
     def cond(self, what, node):
         return byte_cond(what, node)
+
+
+_BUF_MUTATORS = {"fill", "fill_with", "copy_from_slice", "clone_from_slice", "clear", "truncate", "resize", "resize_with", "swap", "reverse",
+                 "rotate_left", "rotate_right", "sort", "sort_unstable", "extend", "extend_from_slice", "push", "pop", "insert", "remove", "drain",
+                 "retain", "dedup", "split_off", "append", "copy_within", "swap_with_slice"}
 
 
 def _is_byte(x):
@@ -422,6 +437,16 @@ def poll_body_rules(F, R):
     R.check(out == ("pending",) and starts == [1, 3] and bases == {"Sym(BUF)"} and not [c for c in pr.calls if c[0] == "block_decode"], "P-body", "partial-fill",
             "with idx=1, a 2-byte read and then Pending: reads target offsets %s of %s, outcome %s, block_decode called: %s "
             "(expected buf[1..] then buf[3..], Pending, no decoding before the buffer is full)" % (starts, sorted(bases), out, bool([c for c in pr.calls if c[0] == "block_decode"])), where=fid)
+    # the bytes already received stay as they are: between two reads nothing writes to the part of the buffer below idx
+    muts = [c for c in pr.calls if c[0] == "buf-mutated"]
+    bad_m = []
+    for c in muts:
+        rng = c[2]
+        ok_tail = isinstance(rng, tuple) and len(rng) >= 2 and rng[1] == "RangeFrom" and any(isinstance(x, tuple) and x[0] == "start" and isinstance(x[1], int) and x[1] >= 1 for x in (rng[2] if len(rng) > 2 and isinstance(rng[2], tuple) else ()))
+        if not ok_tail:
+            bad_m.append((c[1], repr(rng)[:60]))
+    R.check(not bad_m, "P-body", "received-bytes-kept",
+            "with idx=1 the body state calls %s on the body buffer: bytes received by earlier reads are overwritten before the frame is decoded" % (bad_m[:2],), where=fid)
     for step, want in ((("pending",), ("pending",)), (("err",), ("err-passthrough", Sym("IOERR"))), (("eof",), ("err", "IoError"))):
         pr = PollRun(F, body_state(0), [step], buf_len=5).run()
         out = _ret_kind(pr.outcome[1]) if pr.outcome[0] == "returned" else pr.outcome
@@ -514,12 +539,16 @@ def varint_reader_rules(F, R):
                 reads.append(1)
                 return ok(cur)
             return None
+        pe_ = PE(F, call_hook=hook, cond_hook=byte_cond, fuel=80)
         try:
-            r = PE(F, call_hook=hook, cond_hook=byte_cond, fuel=80).call_fn(fid, [Sym("READER")])
+            r = pe_.call_fn(fid, [Sym("READER")])
             kk = result_kind(r)
         except Undecided as e:
             kk = ("undecided", str(e))
         key = "%d-byte%s" % (len(conts) if conts[-1] is False else 5, "" if conts[-1] is False else "-overlong")
+        if R is None:
+            _READER_EVAL.setdefault(id(F), []).extend(list(pe_.overflow) + ([("undecided", str(kk[1]))] if kk[0] == "undecided" else []))
+            continue
         if conts[-1] is False:
             k = len(conts)
             want = {("low7", _unsym(vkey(byte(i, conts[i])))): 128 ** i for i in range(k)}
@@ -533,7 +562,20 @@ def varint_reader_rules(F, R):
             R.check(good, "V-reader", key,
                     "decode_var_int on four continuation bytes gives %r after %d reads (specified: InvalidVarByteInt after four reads)" % (
                         kk[1] if len(kk) > 1 else kk, len(reads)), where=fid)
-    R.floor("V-reader", "byte patterns", n, 5)
+    if R is not None:
+        R.floor("V-reader", "byte patterns", n, 5)
+
+
+_READER_EVAL = {}
+
+
+def reader_arith_events(F):
+    """Overflow / shift-amount events met while decode_var_int is evaluated on its five byte patterns (every iteration count the
+    loop can make): an empty list means the counters and shift amounts, which depend on the iteration count only, stay in range."""
+    if id(F) not in _READER_EVAL:
+        _READER_EVAL[id(F)] = []
+        varint_reader_rules(F, None)
+    return _READER_EVAL[id(F)]
 
 
 def _digit_canon(t):
